@@ -575,12 +575,53 @@ Proof. left; auto. Qed.
 Lemma harmless_rel c s s' : rel_eq s s' -> harmless c s s'.
 Proof. right; right; auto. Qed.
 
+Ltac split_rx := unf_rx; repeat match goal with K : _ /\ _ |- _ => destruct K end.
+Ltac norm_rx :=
+  unfold nslots, get_slot in *;
+  repeat progress (autorewrite with rxs; prj;
+    repeat match goal with
+    | H : r_slots ?b = _ |- context [r_slots ?b] => rewrite H
+    | H : r_q ?b = _ |- context [r_q ?b] => rewrite H
+    | H : n_pgn (rn ?b) = _ |- context [n_pgn (rn ?b)] => rewrite H
+    | H : c_only_known (r_cfg ?b) = _ |- context [c_only_known (r_cfg ?b)] => rewrite H
+    end).
+Ltac harmless_tac :=
+  first [ apply free_slot_harmless | apply harmless_tp; reflexivity | apply harmless_rel; repeat split; reflexivity ].
+Ltac tab_tac T T1 :=
+  repeat (apply tab_ok_zset; [|harmless_tac]); first [exact T | exact T1].
+
 Lemma handle_tp_post c p g r pgn src dst len buf h r1 ev idx :
   n_pgn (rn r) = c -> tab_ok c p (r_slots r) g ->
   handle_tp r pgn src dst len buf = (h, r1, ev, idx) ->
   dlv_of ev = [] /\ (h = true -> tp_post c p g r r1 idx) /\ (h = false -> r1 = r).
 Proof.
-  intros Hc T H. unfold handle_tp in H. revert H. crack; intros H; injection H as E0 E1 E2 E3; subst.
+  intros Hc T H. unfold handle_tp in H. revert H. crack; intros H; injection H as E0 E1 E2 E3; subst h ev idx; subst r1.
   all: try (split; [reflexivity|split; [intros; discriminate | reflexivity]]).
-  Show.
+  all: match goal with T0 : tab_ok _ _ (r_slots ?rr) _ |- _ => pose proof (find_tp_slot_spec src dst (r_slots rr) 0) as FT; cbv zeta in FT; rewrite Z.sub_0_r, Z.add_0_l in FT end.
+  all: try match goal with E: find_free_slot ?rr _ _ _ _ = (?l, ?z) |- _ => destruct (find_free_slot_tab _ _ _ _ _ _ _ _ _ _ E T) as (T1 & L1 & Z0) end.
+  all: split; [finr|]; split; [intros _ | intros; discriminate].
+  all: unfold tp_post; split_rx; norm_rx.
+  all: (split; [try congruence|split; [try congruence|split; [try congruence|split; [|split]]]]).
+  all: try (rewrite ?zset_length; lia).
+  all: try (tab_tac T T1).
+  all: try (rewrite ?zset_length; intros X; apply Z.ltb_lt in X; first [lia | split; [lia|]; rewrite znth_zset_eq by lia; reflexivity]).
+Qed.
+
+Lemma tp_post_post c p f D g r r1 idx : ghost_ok (length p) g D -> tp_post c p g r r1 idx -> post c p f D r r1 idx.
+Proof.
+  intros G (A & B & C & N & T & I). repeat split; auto. exists g. split; [apply ghost_same; auto|]. split; [apply (proj1 T)|]. split.
+  - intros k Hk _. apply slot_ok_ext. apply (proj2 T). exact Hk.
+  - intros Hlt. destruct (I Hlt) as [I1 I2]. split; auto.
+Qed.
+
+Theorem rx_frame_post c p f D g r r1 ev idx :
+  n_pgn (rn r) = c -> tab_ok c p (r_slots r) g -> ghost_ok (length p) g D ->
+  rx_frame r f = (r1, ev, idx) -> dlv_of ev = [] /\ post c p f D r r1 idx.
+Proof.
+  intros Hc T G H. rewrite rx_frame_eq in H. destruct (can_id_to_n2k (r_id f)) as [[[pri pgn] src] dst] eqn:Hid.
+  destruct (handle_tp r pgn src dst (r_len f) (r_buf f)) as [[[h r1'] ev'] idx'] eqn:HT.
+  destruct (handle_tp_post c p g _ _ _ _ _ _ _ _ _ _ Hc T HT) as (Hd & Ht & Hf).
+  destruct h.
+  - injection H as <- <- <-. split; auto. eapply tp_post_post; eauto.
+  - rewrite (Hf eq_refl) in *. destruct (rx_nontp_post c p f D g r pri pgn src dst r1 ev idx Hid Hc T G H) as [-> P]. split; auto.
 Qed.
